@@ -16,7 +16,7 @@ import os
 import re
 
 from engine import RuleSet
-from hir import strip, pat_variants, pat_str, kids
+from hir import strip, pat_variants
 import qq
 
 RULES = RuleSet("C08", "§3 C08",
@@ -1485,11 +1485,12 @@ def relative_guards(b, inner, outer):
     return gi[len(go):] if gi[:len(go)] == go else gi
 
 
-BITFIELD_NAMED = re.compile(r"^(std::option::Option::<T>::is_some\(|let std::prelude::v1::Some\(\w+\) = )<ir::comp::Bitfield as ir::comp::FieldMethods>::name\(")
+BITFIELD_NAMED = re.compile(r"^!?(std::option::Option::<T>::is_some\(|let std::prelude::v1::Some\(\w+\) = )<ir::comp::Bitfield as ir::comp::FieldMethods>::name\(")
 
 
 def conds_text(b, gs):
-    return [("" if pol else "!") + b.canon(g, 4) for pol, kind, g in gs if kind == "cond"]
+    """flattened atoms (`!(a || b)` gives !a and !b) of the `cond` guards in gs"""
+    return [("" if p else "!") + a for pol, kind, g in gs if kind == "cond" for a, p, _ in qq._atoms(b, g, pol)]
 
 
 @RULES.rule("R8.4", "derives_of_item, forward declarations and the hand-written Default/Clone/Debug/PartialEq impls", floor=73)
@@ -1538,7 +1539,7 @@ def r8_4(rep):
         before = [(f, n) for f, n in sites if toplevel_index(doi, n) <= ri]
         after = [(f, n) for f, n in sites if toplevel_index(doi, n) > ri]
         ok_before = all(f in ("COPY", "CLONE") and qq.has_atom(qq.guard_atoms(doi, n), "CanDeriveCopy>::can_derive_copy(", True) for f, n in before)
-        rep.check(ok_before and {f for f, _ in after} == set(spec) - {"COPY", "CLONE"}, "packed:nothing-else",
+        rep.check(ok_before and {f for f, _ in after} >= set(spec) - {"COPY", "CLONE"}, "packed:nothing-else",
                   "every bit other than COPY/CLONE is set after the early return (before: %s)" % sorted(f for f, _ in before), doi.loc(r))
         e = strip(r["e"]) if isinstance(r.get("e"), dict) else {}
         val = doi.canon(e, 3)
@@ -1893,3 +1894,6 @@ def r8_7(rep):
                       "DerivableTraits::%s is withheld from an item when %s%s, %s" %
                       (flag, "not " if pol else "", short(name), "and the CannotDerive analysis consults it too" if vis else
                        "but the CannotDerive analysis never looks at it: a struct that contains such an item still derives the trait"), doi.loc(n))
+
+
+RULES.rules.sort(key=lambda r: r.id)
